@@ -146,6 +146,7 @@ def serialise(outputs, compute_order, real_wire: str | None) -> tuple[str, dict]
 
 
 LAST_FRAGMENT: str | None = None     # of the last answer parsed: 'yes' | 'no reason,reason' | None
+LAST_FRAGMENT_R: str | None = None   # the same for the fragment with reductions (loopygen_sound_red_partial)
 
 
 def parse_answer(ans: str):
@@ -155,8 +156,11 @@ def parse_answer(ans: str):
         return ("error", ans)
     a = ans[3:]
     chk = None
-    global LAST_FRAGMENT
-    LAST_FRAGMENT = None
+    global LAST_FRAGMENT, LAST_FRAGMENT_R
+    LAST_FRAGMENT = LAST_FRAGMENT_R = None
+    if "\t#fragmentR " in a:
+        a, f = a.rsplit("\t#fragmentR ", 1)
+        LAST_FRAGMENT_R = f.strip()
     if "\t#fragment " in a:
         a, f = a.rsplit("\t#fragment ", 1)
         LAST_FRAGMENT = f.strip()
